@@ -258,5 +258,10 @@ func SelectEndPoint(addrs []string, user, token string) (addr string, channel Ch
 		}
 		return addr, channel, nil
 	}
+	if err == nil {
+		// every address was skipped: there is nothing to report
+		// but the caller must not get a nil channel without an error.
+		err = fmt.Errorf("no valid address in %v", addrs)
+	}
 	return "", nil, err
 }
